@@ -520,9 +520,9 @@ func enumerate(tier string, emit func(string)) {
 		}
 	}
 	// race-detector pass (second binary): every schedule with <= 1 (quick) / <= 2 (thorough) preemptions
-	rb, rs := 1, 1
+	rb, rs := 1, 4
 	if tier == engine.Thorough {
-		rb, rs = 2, 4
+		rb, rs = 2, 8
 	}
 	for _, sc := range scenarios {
 		b := rb
@@ -630,9 +630,9 @@ func execCase(spec string) (res engine.Result) {
 // about generic function dispatch under concurrency, for the concurrent half of C10.
 func GenericScenarioSpecs(tier string) []string {
 	var specs []string
-	rb, rs := 1, 1
+	rb, rs := 1, 4
 	if tier == engine.Thorough {
-		rb, rs = 2, 4
+		rb, rs = 2, 8
 	}
 	for _, sc := range scenarios {
 		if !strings.HasPrefix(sc.name, "d3-") && !strings.HasPrefix(sc.name, "d4-") && !strings.HasPrefix(sc.name, "d5-") && !strings.HasPrefix(sc.name, "d6-") {
